@@ -26,8 +26,9 @@ Section FixedC.
 Variable cf : config.
 Hypothesis Hfix : cf_fix cf = all_fixed.
 Variable Old : list tok.
+Variable T0 : list event.
 
-Notation JJ := (J Old).
+Notation JJ := (J Old T0).
 Notation NK := (newk Old).
 Notation NT := (newt Old).
 Notation OK := (okr Old).
@@ -59,7 +60,7 @@ Record Specs4 (f : nat) : Prop := {
   cp_cleanup_loop : forall n s, Inv s -> JJ s -> safe (cleanup_loop cf f n) s jpost;
   cp_set_servers : forall s, Inv s -> JJ s -> safe (set_servers cf f) s jpost;
   cp_set_servers_loop : forall n s, Inv s -> JJ s -> safe (set_servers_loop cf f n) s jpost;
-  cp_cancel : forall s, Inv s -> Jpre Old s -> safe (cancel cf f) s jpost;
+  cp_cancel : forall s, Inv s -> Jpre Old T0 s -> safe (cancel cf f) s jpost;
   cp_cancel_loop : forall n s, Inv s -> JJ s -> safe (cancel_loop_fixed cf f n) s jpost;
   cp_search_int : forall k names s, Inv s -> Own s (cobjs k) -> GivenOk s (kbot k) -> JJ s -> NK s k ->
       safe (search_int cf f k names) s jpost;
@@ -93,12 +94,12 @@ Let S1 := all_specs cf Hfix.
 Tactic Notation "both" uconstr(H1) uconstr(H2) := eapply safe_mono; [apply safe_both; [apply H1|apply H2]|].
 
 (* ---- small steps ---- *)
-Lemma J_core s s' : core_eq s s' -> st_scripts s' = st_scripts s -> JJ s -> JJ s'.
-Proof. intros E Es Hj. eapply J_rel; [exact Hj|apply jrel_core; auto]. Qed.
+Lemma J_core s s' : core_eq s s' -> st_scripts s' = st_scripts s -> st_trace s' = st_trace s -> JJ s -> JJ s'.
+Proof. intros E Es Et Hj. eapply J_rel; [exact Hj|apply jrel_core; auto]. Qed.
 Lemma J_tape s l : JJ s -> JJ (set_tape l s).
-Proof. apply J_core; [apply core_eq_set_tape|reflexivity]. Qed.
-Lemma J_emit s e : JJ s -> JJ (set_trace (e :: st_trace s) s).
-Proof. apply J_core; [apply core_eq_set_trace|reflexivity]. Qed.
+Proof. apply J_core; [apply core_eq_set_tape|reflexivity|reflexivity]. Qed.
+Lemma J_emit s e : okev Old e -> JJ s -> JJ (set_trace (e :: st_trace s) s).
+Proof. intros He Hj. eapply J_rel; [exact Hj|apply jrel_emit; exact He]. Qed.
 Lemma NK_core s s' k : core_eq s s' -> NK s k -> NK s' k.
 Proof. intros E [A B]. split; auto. intros o Ek h Hc. rewrite (ce_cell _ _ _ E) in Hc. exact (B o Ek h Hc). Qed.
 Lemma OK_core s s' k r : core_eq s s' -> OK s k r -> OK s' k r.
@@ -130,7 +131,8 @@ Proof.
       * intros o h H1. left. exists h. auto.
       * unfold futr. simpl. intros x Hx. apply in_flat_map in Hx. destruct Hx as [p [Hp Hx]].
         apply in_flat_map. exists p. split; auto. eapply remove_key_incl; eauto.
-    + eapply newt_incl; [|exact (j_scr _ _ Hj)]. intros x Hx. unfold futr. apply in_flat_map.
+      * exists []. split; [reflexivity|]. intros e [].
+    + eapply newt_incl; [|exact (j_scr _ _ _ Hj)]. intros x Hx. unfold futr. apply in_flat_map.
       exists (t, sc). split; [apply lookup_in; exact E|exact Hx].
   - split; auto. apply newt_nil.
 Qed.
@@ -159,7 +161,10 @@ Proof.
     set (s1 := set_trace (EvCb t (r_status r) :: st_trace s) s).
     assert (E1 : core_eq s s1) by apply core_eq_set_trace.
     assert (I1 : Inv s1) by (apply (inv_core _ _ _ E1); auto).
-    assert (J1 : JJ s1) by (apply J_emit; exact Hj).
+    assert (J1 : JJ s1).
+    { apply J_emit; [|exact Hj]. simpl. intros Hto. destruct Hok as [[Hnw _]|Hcr].
+      - exfalso. apply (Hnw t); [left; reflexivity|exact Hto].
+      - rewrite Hcr. reflexivity. }
     destruct (take_script_ok _ t s1 I1) as [sc [s2 [E2 [C2 I2]]]].
     destruct (J_take_script t s1 J1 sc s2 E2) as [J2 Hsc].
     apply safe_bind. eapply safe_of_run; [exact E2|].
@@ -228,17 +233,17 @@ Proof.
   intros IH qo r s I Hl Hj. simpl. rewrite (fx_unlink_true cf Hfix).
   destruct (inv_query _ _ I _ Hl) as [q Hq].
   destruct (detach_query_ok _ _ _ _ I (or_intror eq_refl) Hl Hq)
-    as [s1 [E1 [I1 [F1 [_ [_ [_ [Esc [_ [Els [Hq1 [Hr1 [O1 Hc1]]]]]]]]]]]]].
+    as [s1 [E1 [I1 [F1 [_ [_ [Etr [Esc [_ [Els [Hq1 [Hr1 [O1 Hc1]]]]]]]]]]]]].
   assert (R1 : jrel Old s s1) by (eapply jrel_detach; eauto).
-  pose proof (J_rel _ _ _ Hj R1) as J1.
+  pose proof (J_rel _ _ _ _ Hj R1) as J1.
   pose proof (fd_given _ _ _ F1) as Hg1.
   apply safe_bind. eapply safe_of_run; [exact E1|].
   apply safe_bind. eapply safe_get_query; [exact (inv_heap _ _ I1)|exact Hq1|].
   apply safe_bind. simpl.
   assert (Hok : OK s1 (q_cb q) (if q_cancelled q then res ARES_ECANCELLED else r)).
   { destruct (in_linked_split _ _ Hl) as [Hh|Ht].
-    - destruct (j_head _ _ Hj qo q Hh Hq) as [A B]. left. eapply newk_rel; eauto.
-    - rewrite (j_tail _ _ Hj qo q Ht Hq). right. reflexivity. }
+    - destruct (j_head _ _ _ Hj qo q Hh Hq) as [A B]. left. eapply newk_rel; eauto.
+    - rewrite (j_tail _ _ _ Hj qo q Ht Hq). right. reflexivity. }
   both (sp_invoke _ _ (S1 f) (q_cb q) _ s1 I1 O1 Hg1) (cp_invoke _ IH (q_cb q) _ s1 I1 O1 Hg1 J1 Hok).
   intros [] s2 [[I2 F2] J2].
   pose proof (fr_cell _ _ _ _ F2 _ _ Hq1 Hr1 (opaque_not_query _ _ _ _ O1 Hq1)) as [Hq2 Hr2].
@@ -266,7 +271,7 @@ Proof.
   intros IH qo st inc df r s I Hl Hj. simpl.
   destruct (inv_query _ _ I _ Hl) as [q Hq].
   destruct (remove_from_conn_ok _ _ _ _ I (or_intror eq_refl) Hl Hq)
-    as [s1 [E1 [I1 [F1 [El [_ [_ [_ [_ [Esc [_ [_ [_ [_ Hc1]]]]]]]]]]]]]].
+    as [s1 [E1 [I1 [F1 [El [_ [_ [_ [Etr [Esc [_ [_ [_ [_ Hc1]]]]]]]]]]]]]].
   assert (J1 : JJ s1).
   { eapply J_rel; [exact Hj|]. apply jrel_sim; auto. apply (strip_sim s s1 qo q (set_q_conn None q)); auto. }
   apply safe_bind. eapply safe_of_run; [exact E1|].
@@ -422,7 +427,7 @@ Proof.
   set (s1 := set_nservers n (set_tape rest s)).
   assert (E1 : core_eq s s1) by (eapply core_eq_trans; [apply core_eq_set_tape|apply core_eq_set_nservers]).
   apply (cp_set_servers_loop _ IH); [apply (inv_core _ _ _ E1); auto|].
-  apply (J_core s); auto.
+  apply (J_core s); auto; reflexivity.
 Qed.
 
 Lemma cancel_loop_cstep f : Specs4 f -> forall n s, Inv s -> JJ s -> safe (cancel_loop_fixed cf (S f) n) s jpost.
@@ -438,13 +443,13 @@ Proof.
   intros [] s1 [[I1 _] J1]. apply (cp_cancel_loop _ IH); auto.
 Qed.
 
-Lemma cancel_cstep f : Specs4 f -> forall s, Inv s -> Jpre Old s -> safe (cancel cf (S f)) s jpost.
+Lemma cancel_cstep f : Specs4 f -> forall s, Inv s -> Jpre Old T0 s -> safe (cancel cf (S f)) s jpost.
 Proof.
   intros IH s I Hp. rewrite cancel_unfold. apply safe_bind. apply safe_get.
   assert (G : forall s1, Inv s1 -> JJ s1 -> safe (check_cleanup cf f) s1 jpost).
   { intros s1 I1 J1. apply (cp_check_cleanup _ IH); auto. }
   assert (J0 : heads s = [] -> JJ s).
-  { intros Hh. destruct Hp as [A B]. constructor; auto. rewrite Hh. intros qo q []. }
+  { intros Hh. destruct Hp as [A B C]. constructor; auto. rewrite Hh. intros qo q []. }
   destruct (st_lists s) as [|[|q0 l0] rest] eqn:El.
   - apply safe_bind. apply safe_ret. apply G; auto. apply J0. unfold heads. rewrite El. reflexivity.
   - apply safe_bind. apply safe_ret. apply G; auto. apply J0. unfold heads. rewrite El. reflexivity.
@@ -456,12 +461,13 @@ Proof.
     assert (Hin1 : incl (q0 :: l0) (linked s1)).
     { intros y Hy. unfold linked, s1. simpl. destruct Hy as [->|Hy]; [left; auto|right; apply in_or_app; left; exact Hy]. }
     apply safe_bind.
-    eapply safe_mono; [apply safe_both; [apply (mark_cancelled_ok (q0 :: l0) _ I1 Hin1)|apply (mark_cancelled_J Old (q0 :: l0) s1 I1)]|].
+    eapply safe_mono; [apply safe_both; [apply (mark_cancelled_ok (q0 :: l0) _ I1 Hin1)|apply (mark_cancelled_J Old T0 (q0 :: l0) s1 I1)]|].
     + reflexivity.
     + intros y Hy. change (In y ((q0 :: l0) ++ concat rest)). apply in_or_app. left. exact Hy.
     + intros y q Ht Hn Hc. change (In y ((q0 :: l0) ++ concat rest)) in Ht. apply in_app_or in Ht. destruct Ht as [Ht|Ht]; [contradiction|].
-      apply (jp_tail _ _ Hp y q); auto. unfold tails. rewrite El. exact Ht.
-    + exact (jp_scr _ _ Hp).
+      apply (jp_tail _ _ _ Hp y q); auto. unfold tails. rewrite El. exact Ht.
+    + exact (jp_scr _ _ _ Hp).
+    + exact (jp_tr _ _ _ Hp).
     + intros [] sm [[Im _] Jm].
       apply safe_bind.
       both (sp_cancel_loop _ _ (S1 f) f _ Im) (cp_cancel_loop _ IH f _ Im Jm).
@@ -478,6 +484,7 @@ Proof.
       * intros o q Hc. exists q. auto.
       * intros o h Hc. left. exists h. auto.
       * apply incl_refl.
+      * exists []. split; [reflexivity|]. intros e [].
 Qed.
 
 (* ---- ares_send_query ---- *)
@@ -700,7 +707,7 @@ Proof.
           assert (K4 : NK s4 k) by (apply NK_tape; exact Hk).
           set (q0 := {| q_qid := qid; q_cb := k; q_conn := None; q_try := 0; q_noretry := pr; q_tcp := false; q_err := ARES_SUCCESS; q_cancelled := false |}).
           destruct (new_query_ok s4 k qid q0 I4 O4 Hn4 Lk1 eq_refl eq_refl eq_refl) as [I5 [F5 [Hl5 [Hq5 _]]]].
-          pose proof (J_new_query Old s4 k qid q0 I4 J4 K4 eq_refl eq_refl) as J5.
+          pose proof (J_new_query Old T0 s4 k qid q0 I4 J4 K4 eq_refl eq_refl) as J5.
           apply safe_bind. apply safe_alloc.
           apply safe_bind. eapply safe_of_run; [apply link_all_run|].
           apply safe_bind. apply safe_modify.
@@ -1054,7 +1061,7 @@ Proof.
             (forall s1, core_eq s s1 -> st_scripts s1 = st_scripts s -> JJ s1 -> safe m s1 jpost) ->
             safe (emit (EvReq t) ;; m) s jpost).
   { intros t m Hm. apply safe_bind. apply safe_emit.
-    apply Hm; [apply core_eq_set_trace|reflexivity|apply J_emit; exact Hj]. }
+    apply Hm; [apply core_eq_set_trace|reflexivity|apply J_emit; [exact Logic.I|exact Hj]]. }
   destruct c; simpl; simpl in Hnt.
   - (* ASync *)
     apply Em. intros s1 E1 Es1 J1.
@@ -1158,7 +1165,7 @@ Proof.
   - (* ASetServers *)
     apply safe_bind. apply safe_emit.
     assert (E1 : core_eq s (set_trace (EvSetServers :: st_trace s) s)) by apply core_eq_set_trace.
-    apply (cp_set_servers _ IH); [apply (inv_core _ _ _ E1); auto|apply J_emit; exact Hj].
+    apply (cp_set_servers _ IH); [apply (inv_core _ _ _ E1); auto|apply J_emit; [exact Logic.I|exact Hj]].
   - (* ANop *)
     apply safe_ret. exact Hj.
 Qed.
